@@ -601,11 +601,20 @@ func (ctx Ctx) methodExpr(call *ast.CallExpr) coq.Expr {
 	switch f := f.(type) {
 	case *ast.Ident:
 		typeArgs := ctx.typeList(call, ctx.info.Instances[f].TypeArgs)
+		callee := ctx.identExpr(f)
+		if _, recursive := callee.(coq.GallinaString); recursive && len(typeArgs) > 0 {
+			// the recursion binder is the function already applied to its
+			// own type parameters
+			if !ctx.instantiatedAtOwnTypeParams(f) {
+				ctx.unsupported(call, "recursive call of a generic function at other type arguments")
+			}
+			typeArgs = nil
+		}
 
 		// XXX: this could be a struct field of type `func()`; right now we
 		// don't support generic structs, so code with a generic function field
 		// will be rejected. But, in the future, that might change.
-		retExpr = ctx.newCoqCallTypeArgs(ctx.identExpr(f), typeArgs, args)
+		retExpr = ctx.newCoqCallTypeArgs(callee, typeArgs, args)
 	case *ast.SelectorExpr:
 		retExpr = ctx.selectorMethod(f, call)
 	case *ast.IndexExpr:
@@ -619,6 +628,26 @@ func (ctx Ctx) methodExpr(call *ast.CallExpr) coq.Expr {
 	}
 
 	return retExpr
+}
+
+// instantiatedAtOwnTypeParams reports whether the use f of a generic function
+// instantiates it at exactly that function's type parameters, in order
+func (ctx Ctx) instantiatedAtOwnTypeParams(f *ast.Ident) bool {
+	fun, ok := ctx.info.Uses[f].(*types.Func)
+	if !ok {
+		return false
+	}
+	tparams := fun.Type().(*types.Signature).TypeParams()
+	targs := ctx.info.Instances[f].TypeArgs
+	if targs.Len() != tparams.Len() {
+		return false
+	}
+	for i := 0; i < targs.Len(); i++ {
+		if targs.At(i) != types.Type(tparams.At(i)) {
+			return false
+		}
+	}
+	return true
 }
 
 func (ctx Ctx) makeSliceExpr(elt coq.Type, args []ast.Expr) coq.CallExpr {
